@@ -9,7 +9,7 @@ Property theorems only (helper lemmas: `OxyModel/Proofs/Pool`, `OxyModel/Proofs/
 `RoundRobin` (`viaRb = true`), with an explicit object heap (`Model/Pool.lean`).  A history is any list
 of `RB.Op`: add / update (with or without weight, negative weights), remove (known or unknown),
 `NextServer`, requests (sticky cookie, downstream handler rewriting `req.URL`), meter readings and
-clock steps.  `RB.specOf hist : Key → Option Nat` is the set defined by the add / update / remove
+clock steps.  `RB.specOf v hist : Key → Option Nat` is the set defined by the add / update / remove
 calls of the history (with the configured weights).
 -/
 namespace C02
@@ -20,7 +20,7 @@ def reach (viaRb sticky : Bool) (backoff : Nat) (newReady : Bool) (hist : List O
   (Sys.init viaRb sticky backoff newReady).applyOps hist
 
 private theorem reach_spec (v st : Bool) (bo : Nat) (nr : Bool) (hist : List Op) :
-    (reach v st bo nr hist).Inv ∧ (reach v st bo nr hist).Refines (specOf hist) ∧
+    (reach v st bo nr hist).Inv ∧ (reach v st bo nr hist).Refines (specOf v hist) ∧
     (reach v st bo nr hist).viaRb = v ∧ (reach v st bo nr hist).sticky = st := by
   obtain ⟨a, b, c⟩ := Sys.applyOps_spec hist (Sys.init_inv v st bo nr) (Sys.init_refines v st bo nr)
   exact ⟨a, b, c.viaRb, c.sticky⟩
@@ -29,8 +29,8 @@ private theorem reach_spec (v st : Bool) (bo : Nat) (nr : Bool) (hist : List Op)
     removes of unknown servers, requests, URL-rewriting handlers included — a key is in the pool iff
     the add / update / remove calls so far define it, with exactly the configured weight. -/
 theorem C02_refines_set (sticky : Bool) (bo : Nat) (nr : Bool) (hist : List Op) (k : Key) :
-    (k ∈ (reach false sticky bo nr hist).bal.view.keys ↔ (specOf hist k).isSome) ∧
-    (reach false sticky bo nr hist).bal.weight k = specOf hist k ∧
+    (k ∈ (reach false sticky bo nr hist).bal.view.keys ↔ (specOf false hist k).isSome) ∧
+    (reach false sticky bo nr hist).bal.weight k = specOf false hist k ∧
     (reach false sticky bo nr hist).bal.view.keys.Nodup := by
   obtain ⟨hi, hr, hv, _⟩ := reach_spec false sticky bo nr hist
   have hc := hr k
@@ -42,8 +42,8 @@ theorem C02_refines_set (sticky : Bool) (bo : Nat) (nr : Bool) (hist : List Op) 
 /-- **C02 (membership, through the rebalancer)**: identically — and the rebalancer's own records are
     the same servers in the same order, each remembering exactly the configured weight. -/
 theorem C02_refines_set_rebalancer (sticky : Bool) (bo : Nat) (nr : Bool) (hist : List Op) (k : Key) :
-    (k ∈ (reach true sticky bo nr hist).bal.view.keys ↔ (specOf hist k).isSome) ∧
-    (reach true sticky bo nr hist).reb.configured k = specOf hist k ∧
+    (k ∈ (reach true sticky bo nr hist).bal.view.keys ↔ (specOf true hist k).isSome) ∧
+    (reach true sticky bo nr hist).reb.configured k = specOf true hist k ∧
     (reach true sticky bo nr hist).reb.servers.map Rec.key = (reach true sticky bo nr hist).bal.view.keys ∧
     (reach true sticky bo nr hist).bal.view.keys.Nodup := by
   obtain ⟨hi, hr, hv, _⟩ := reach_spec true sticky bo nr hist
@@ -58,7 +58,7 @@ theorem C02_refines_set_rebalancer (sticky : Bool) (bo : Nat) (nr : Bool) (hist 
     `C02_refines_set`), for both front ends. -/
 theorem C02_selected_is_member (v st : Bool) (bo : Nat) (nr : Bool) (hist : List Op) (op : Op) (x : URL)
     (hx : ((reach v st bo nr hist).step op).2.routedTo = some x) :
-    x ∈ (reach v st bo nr hist).servers ∧ (specOf hist x.key).isSome := by
+    x ∈ (reach v st bo nr hist).servers ∧ (specOf v hist x.key).isSome := by
   obtain ⟨hi, hr, _, _⟩ := reach_spec v st bo nr hist
   have hm := (Sys.routed_member hi op hx).1
   refine ⟨hm, ?_⟩
@@ -123,9 +123,38 @@ theorem C02_added_within_rotation (v st : Bool) (bo : Nat) (nr : Bool) (hist : L
     simp [Bal.view_keys, Sys.servers, List.getD_eq_getElem?_getD, List.getElem?_eq_getElem hlen']
   rw [← this]; exact hk
 
+/-- **C02 (an add that fails changes nothing)**: when the rebalancer's meter factory fails for a server
+    it has no record of, `UpsertServer` returns the error, the server is not a member (the balancer
+    insert is rolled back), the stored URLs and all weights are as before, and the set defined by the
+    administration calls is unchanged — so every other theorem applies to histories with failed adds. -/
+theorem C02_failed_add_noop (st : Bool) (bo : Nat) (nr : Bool) (hist : List Op) (u : URL) (w : Option Nat)
+    (hu : specOf true hist u.key = none) :
+    ((reach true st bo nr hist).step (.upsertFailing u w)).2 = .errMeter ∧
+    ((reach true st bo nr hist).step (.upsertFailing u w)).1.servers = (reach true st bo nr hist).servers ∧
+    ((reach true st bo nr hist).step (.upsertFailing u w)).1.bal.ws = (reach true st bo nr hist).bal.ws ∧
+    specOf true (hist ++ [.upsertFailing u w]) = specOf true hist := by
+  obtain ⟨hi, hr, hv, _⟩ := reach_spec true st bo nr hist
+  have hspec : specOf true (hist ++ [.upsertFailing u w]) = specOf true hist := by
+    unfold specOf; rw [List.foldl_append]
+    simp only [List.foldl_cons, List.foldl_nil, specStep]
+    have : (List.foldl (specStep true) Spec.empty hist) u.key = none := hu
+    rw [this]; rfl
+  generalize reach true st bo nr hist = s at *
+  have hf : s.reb.find u.key = none := by
+    have := hr u.key
+    unfold Sys.configured at this
+    rw [if_pos hv, hu] at this
+    unfold Reb.configured at this
+    rw [Reb.find_eq, Pool.find_none, ← Pool.weight_none]; exact this
+  have e : s.step (.upsertFailing u w) = ({ s with reb := s.reb.upsertMeterFails u w }, .errMeter) := by
+    simp only [Sys.step, hv, hf, Option.isNone_none, Bool.and_self, if_true]
+  rw [e]
+  obtain ⟨_, _, _, _, i5, i6⟩ := Reb.upsertMeterFails_spec (hi.reb hv) u w hf
+  exact ⟨rfl, i5, i6, hspec⟩
+
 /-- **C02 (removing an unknown server fails and changes nothing)**: the whole state is untouched. -/
 theorem C02_remove_unknown_noop (v st : Bool) (bo : Nat) (nr : Bool) (hist : List Op) (u : URL)
-    (hu : specOf hist u.key = none) :
+    (hu : specOf v hist u.key = none) :
     (reach v st bo nr hist).step (.remove u) = (reach v st bo nr hist, .errNotFound) := by
   obtain ⟨hi, hr, _, _⟩ := reach_spec v st bo nr hist
   apply (Sys.remove_spec hi hr u).2.2.2.1
@@ -135,7 +164,7 @@ theorem C02_remove_unknown_noop (v st : Bool) (bo : Nat) (nr : Bool) (hist : Lis
 /-- **C02 (empty pool ⇒ error response)**: with no member defined, every request — any cookie, any
     handler — gets the error response, the downstream handler is not called, nothing changes;
     `NextServer()` fails likewise. -/
-theorem C02_empty_is_error (v st : Bool) (bo : Nat) (nr : Bool) (hist : List Op) (hz : ∀ k, specOf hist k = none)
+theorem C02_empty_is_error (v st : Bool) (bo : Nat) (nr : Bool) (hist : List Op) (hz : ∀ k, specOf v hist k = none)
     (cookie : Option Key) (mt : Option Mut) :
     (reach v st bo nr hist).step (.serve cookie mt) = (reach v st bo nr hist, .failed .errNoServers) ∧
     ((reach v st bo nr hist).step .next).2 = .next .errNoServers none := by
@@ -170,14 +199,14 @@ known finding `sticky_zero_weight`).  Proved: the clause for every request that 
     that is not pinned to a member by a sticky cookie gets the error response, the handler is not
     called and nothing changes; `NextServer()` fails. -/
 theorem C02_zero_is_error_partial (v st : Bool) (bo : Nat) (nr : Bool) (hist : List Op)
-    (hne : ∃ k, (specOf hist k).isSome) (hz : ∀ k w, specOf hist k = some w → w = 0)
+    (hne : ∃ k, (specOf v hist k).isSome) (hz : ∀ k w, specOf v hist k = some w → w = 0)
     (cookie : Option Key) (mt : Option Mut)
-    (hnp : st = true → ∀ k, cookie = some k → specOf hist k = none) :
+    (hnp : st = true → ∀ k, cookie = some k → specOf v hist k = none) :
     (reach v st bo nr hist).step (.serve cookie mt) = (reach v st bo nr hist, .failed .errAllZero) ∧
     ((reach v st bo nr hist).step .next).2 = .next .errAllZero none := by
   obtain ⟨hi, hr, _, hst⟩ := reach_spec v st bo nr hist
   have hall := Sys.all_zero_of_spec hi hr hz
-  have hmem : ∀ k, k ∈ (reach v st bo nr hist).bal.view.keys ↔ (specOf hist k).isSome := by
+  have hmem : ∀ k, k ∈ (reach v st bo nr hist).bal.view.keys ↔ (specOf v hist k).isSome := by
     intro k; rw [← Sys.configured_mem hi, hr k]
   generalize reach v st bo nr hist = s at *
   have hwne : s.bal.ws ≠ [] := by
@@ -211,7 +240,7 @@ theorem C02_zero_is_error_partial (v st : Bool) (bo : Nat) (nr : Bool) (hist : L
 theorem C02_zero_is_error_counterexample :
     let a : URL := ⟨"http", "a", "/", "", ""⟩
     let hist := [Op.upsert a none, Op.upsert a (some 0)]
-    specOf hist a.key = some 0 ∧
+    specOf false hist a.key = some 0 ∧
     ((reach false true 0 false hist).step (.serve none none)).2 = .failed .errAllZero ∧
     ((reach false true 0 false hist).step (.serve (some a.key) none)).2 = .forwarded a true := by
   decide
@@ -230,10 +259,10 @@ theorem C02_handout_fresh (v st : Bool) (bo : Nat) (nr : Bool) (hist : List Op) 
 theorem C02_downstream_mutation_noop (v st : Bool) (bo : Nat) (nr : Bool) (hist : List Op) (cookie : Option Key)
     (mt : Option Mut) :
     ((reach v st bo nr hist).step (.serve cookie mt)).1.servers = (reach v st bo nr hist).servers ∧
-    ∀ k, (k ∈ ((reach v st bo nr hist).step (.serve cookie mt)).1.bal.view.keys ↔ (specOf hist k).isSome) := by
+    ∀ k, (k ∈ ((reach v st bo nr hist).step (.serve cookie mt)).1.bal.view.keys ↔ (specOf v hist k).isSome) := by
   obtain ⟨hi, hr, _, _⟩ := reach_spec v st bo nr hist
   obtain ⟨a, b, _⟩ := Sys.step_spec hi hr (.serve cookie mt)
-  have hkeys : ∀ k, (k ∈ ((reach v st bo nr hist).step (.serve cookie mt)).1.bal.view.keys ↔ (specOf hist k).isSome) := by
+  have hkeys : ∀ k, (k ∈ ((reach v st bo nr hist).step (.serve cookie mt)).1.bal.view.keys ↔ (specOf v hist k).isSome) := by
     intro k; rw [← Sys.configured_mem a, b k]; rfl
   refine ⟨?_, hkeys⟩
   generalize reach v st bo nr hist = s at *
@@ -262,17 +291,20 @@ private def b : URL := ⟨"https", "h1", "/", "", ""⟩
 
 -- repeated add keeps the first stored URL; removing leaves the other; through the rebalancer as well
 example : (reach true true 0 true [.upsert a (some 2), .upsert a' none, .upsert b none, .remove a']).servers = [b] := by decide
-example : specOf [.upsert a (some 2), .upsert a' none, .upsert b none, .remove a'] b.key = some 1 := by decide
+example : specOf true [.upsert a (some 2), .upsert a' none, .upsert b none, .remove a'] b.key = some 1 := by decide
 -- the hypotheses of `C02_added_within_rotation`, `C02_remove_unknown_noop`, `C02_zero_is_error_partial`
 example : ((reach false false 0 false [.upsert a (some 2)]).step (.upsert b (some (Int.ofNat 3)))).1.bal.weight b.key = some 3 := by decide
-example : specOf [.upsert a (some 2)] b.key = none := by decide
-example : (∃ k, (specOf [.upsert a none, .upsert a (some 0)] k).isSome) ∧
-    specOf [.upsert a none, .upsert a (some 0)] a.key = some 0 := ⟨⟨a.key, by decide⟩, by decide⟩
+example : specOf false [.upsert a (some 2)] b.key = none := by decide
+example : (∃ k, (specOf false [.upsert a none, .upsert a (some 0)] k).isSome) ∧
+    specOf false [.upsert a none, .upsert a (some 0)] a.key = some 0 := ⟨⟨a.key, by decide⟩, by decide⟩
 -- a continuation that never adds the removed key again (`C02_removed_never_selected`)
 example : ∀ op ∈ [Op.next, Op.serve (some a.key) (some .host), Op.upsert b none, Op.remove a], ¬ op.upsertsKey a.key := by
   intro op h
   simp only [List.mem_cons, List.not_mem_nil, or_false] at h
   rcases h with rfl | rfl | rfl | rfl <;> simp [Op.upsertsKey, a, b, URL.key]
+-- a failed add: the hypothesis of `C02_failed_add_noop`, and what the model answers
+example : specOf true [.upsert a (some 2)] b.key = none := by decide
+example : ((reach true false 0 true [.upsert a (some 2)]).step (.upsertFailing b none)).2 = .errMeter := by decide
 -- a sticky request with a URL-rewriting handler is forwarded on a fresh object
 example : ((reach true true 0 false [.upsert a' none]).step (.serve (some a.key) (some .host))).2 = .forwarded a' true := by decide
 
